@@ -40,7 +40,7 @@ Lemma setattr_ctx_none : forall b a v, b_ctx b = None -> b_ctx (setattr b a v) =
 Proof. intros [o own [c|]] a v H; simpl in *; [discriminate|reflexivity]. Qed.
 
 Section Proofs.
-  Variable ctor : options -> mission -> dict + Z.
+  Variable ctor : options -> (string -> option value) -> mission -> dict + Z.
   Variable calc : options -> (string -> option value) -> (Z * Z) + Z.
   Variable iter_once : options -> (string -> option value) -> (Z * Z) + Z.
   Variable small : options -> Z -> bool.
@@ -50,6 +50,7 @@ Section Proofs.
      compared in link/C17_Link.v) *)
   Variable reads : list string.
   Definition agree (v1 v2 : string -> option value) : Prop := forall a, In a reads -> v1 a = v2 a.
+  Hypothesis ctor_reads : forall o v1 v2 m, agree v1 v2 -> ctor o v1 m = ctor o v2 m.
   Hypothesis calc_reads : forall o v1 v2, agree v1 v2 -> calc o v1 = calc o v2.
   Hypothesis iter_reads : forall o v1 v2, agree v1 v2 -> iter_once o v1 = iter_once o v2.
   Hypothesis adjust_reads : forall v1 v2 r, agree v1 v2 -> adjust v1 r = adjust v2 r.
@@ -297,7 +298,7 @@ Section Proofs.
     (* a flight never leaves a context behind, whether it succeeded or failed, guarded or not *)
     Lemma fly_ctx_none : forall b m, b_ctx (fst (flyg b m)) = None.
     Proof.
-      intros b m. unfold C17_Model.fly. destruct (ctor (b_opts b) m) as [c|r].
+      intros b m. unfold C17_Model.fly. destruct (ctor (b_opts b) (view b) m) as [c|r].
       - destruct (body _) as [b' out]. reflexivity.
       - destruct (b_ctx b) eqn:E; simpl; auto. destruct guarded; simpl; auto.
     Qed.
@@ -306,7 +307,9 @@ Section Proofs.
       sim (fst (flyg b1 m)) (fst (flyg b2 m)) /\ snd (flyg b1 m) = snd (flyg b2 m).
     Proof.
       intros b1 b2 m H Hn. pose proof H as (Ho & Hc & C1 & C2 & K).
-      unfold C17_Model.fly. rewrite <- Ho, <- Hc, Hn. destruct (ctor (b_opts b1) m) as [c|r].
+      unfold C17_Model.fly. rewrite <- Ho, <- Hc, Hn.
+      rewrite <- (ctor_reads (b_opts b1) (view b1) (view b2) m (sim_view _ _ H)).
+      destruct (ctor (b_opts b1) (view b1) m) as [c|r].
       - set (c' := update "total_fuel_mass" None (update "starting_mass" (m_given_mass m) c)).
         set (e1 := mkb (b_opts b1) (b_own b1) (Some c')). set (e2 := mkb (b_opts b1) (b_own b2) (Some c')).
         assert (Hh : has "starting_mass" c' = true /\ has "total_fuel_mass" c' = true).
@@ -321,7 +324,7 @@ Section Proofs.
 
     Lemma fly_opts : forall b m, b_ctx b = None -> b_opts (fst (flyg b m)) = b_opts b.
     Proof.
-      intros b m Hn. unfold C17_Model.fly. rewrite Hn. destruct (ctor (b_opts b) m) as [c|r].
+      intros b m Hn. unfold C17_Model.fly. rewrite Hn. destruct (ctor (b_opts b) (view b) m) as [c|r].
       2:{ destruct guarded; reflexivity. }
       set (c' := update "total_fuel_mass" None (update "starting_mass" (m_given_mass m) c)).
       set (e := mkb (b_opts b) (b_own b) (Some c')).
@@ -411,12 +414,12 @@ Section Proofs.
 
   (* ---- which error surfaces ---- *)
   Theorem original_error_surfaces_ctor : forall b m r,
-    ctor (b_opts b) m = inr r -> snd (fly true b m) = Raised (Reason r).
+    ctor (b_opts b) (view b) m = inr r -> snd (fly true b m) = Raised (Reason r).
   Proof. intros b m r H. unfold C17_Model.fly. rewrite H. destruct (b_ctx b); reflexivity. Qed.
 
   Theorem guarded_never_raises_internal_error : forall b m, snd (fly true b m) <> Raised AttrCtx.
   Proof.
-    intros b m. unfold C17_Model.fly. destruct (ctor (b_opts b) m) as [c|r].
+    intros b m. unfold C17_Model.fly. destruct (ctor (b_opts b) (view b) m) as [c|r].
     - set (e := mkb _ _ _). unfold C17_Model.body. destruct (prepare e) as [d|e0]; [|simpl; discriminate].
       unfold C17_Model.body_after.
       destruct (o_optimize (b_opts d)); simpl; [discriminate|].
@@ -428,7 +431,7 @@ Section Proofs.
 
   (* as coded: a constructor failure on a builder without context is replaced by the AttributeError *)
   Theorem ctor_error_masked_as_coded : forall b m r,
-    b_ctx b = None -> ctor (b_opts b) m = inr r -> snd (fly false b m) = Raised AttrCtx.
+    b_ctx b = None -> ctor (b_opts b) (view b) m = inr r -> snd (fly false b m) = Raised AttrCtx.
   Proof. intros b m r Hn H. unfold C17_Model.fly. rewrite H, Hn. reflexivity. Qed.
 
   (* ---- mass iteration: a trajectory is returned only with a residual inside the tolerance ---- *)
@@ -460,11 +463,93 @@ Section Proofs.
     - eapply IH; eauto.
     - inversion H; subst. right. exists c. rewrite Ef. reflexivity.
   Qed.
+
+  (* ---- fly-level statements about refusals and about the iteration ---- *)
+  Definition flight_ctx (c : dict) (m : mission) : dict :=
+    update "total_fuel_mass" None (update "starting_mass" (m_given_mass m) c).
+
+  Lemma snd_fly_ok : forall g b m c, ctor (b_opts b) (view b) m = inl c ->
+    snd (fly g b m) = snd (body (mkb (b_opts b) (b_own b) (Some (flight_ctx c m)))).
+  Proof. intros g b m c H. unfold C17_Model.fly. rewrite H. fold (flight_ctx c m). destruct (body _); reflexivity. Qed.
+
+  (* a refusal by calc_starting_mass, or by a flight iteration, is the exception fly raises *)
+  Theorem fly_calc_refusal_surfaces : forall g b m c e,
+    ctor (b_opts b) (view b) m = inl c ->
+    prepare (mkb (b_opts b) (b_own b) (Some (flight_ctx c m))) = inr e ->
+    snd (fly g b m) = Raised (Reason e).
+  Proof.
+    intros g b m c e Hc Hp. etransitivity; [apply (snd_fly_ok g b m c Hc)|].
+    unfold C17_Model.body. rewrite Hp. reflexivity.
+  Qed.
+
+  Theorem fly_first_iteration_refusal_surfaces : forall g b m c d e,
+    ctor (b_opts b) (view b) m = inl c ->
+    prepare (mkb (b_opts b) (b_own b) (Some (flight_ctx c m))) = inl d ->
+    o_optimize (b_opts d) = false -> snd (fly_iteration d) = inr e ->
+    snd (fly g b m) = Raised (Reason e).
+  Proof.
+    intros g b m c d e Hc Hp Ho Hi. etransitivity; [apply (snd_fly_ok g b m c Hc)|]. unfold C17_Model.body. rewrite Hp.
+    unfold C17_Model.body_after. rewrite Ho. destruct (fly_iteration d) as [x y]. simpl in Hi. subst y. reflexivity.
+  Qed.
+
+  Theorem fly_later_iteration_refusal_surfaces : forall g b m e,
+    snd (fly g b m) = Raised (Reason e) ->
+    e = NOT_IMPLEMENTED \/ e = NO_CONVERGENCE \/ (exists v, ctor (b_opts b) v m = inr e) \/
+    (exists o v, calc o v = inr e) \/ (exists b0, snd (fly_iteration b0) = inr e).
+  Proof.
+    intros g b m e H. unfold C17_Model.fly in H. destruct (ctor (b_opts b) (view b) m) as [c|r] eqn:Ec.
+    - set (e0 := mkb _ _ _) in H. destruct (body e0) as [b' out] eqn:Eb. simpl in H. subst out.
+      unfold C17_Model.body in Eb. destruct (prepare e0) as [d|e1] eqn:Ep.
+      + unfold C17_Model.body_after in Eb. destruct (o_optimize (b_opts d)); [inversion Eb; auto|].
+        destruct (fly_iteration d) as [x [[t r]|e2]] eqn:Ef.
+        * destruct (o_iterate (b_opts x)); [|inversion Eb].
+          destruct (iterate _ x t r) as [z [t3|e3]] eqn:Ei; inversion Eb; subst.
+          destruct (iterate_error_is_nonconvergence_or_original _ _ _ _ _ _ Ei) as [->|Hx];
+            [right; left; reflexivity|right; right; right; right; exact Hx].
+        * inversion Eb; subst. right; right; right; right. exists d. rewrite Ef. reflexivity.
+      + inversion Eb; subst. right; right; right; left.
+        unfold C17_Model.prepare in Ep. destruct (getattr e0 "starting_mass") as [[v|]|]; try discriminate.
+        * destruct gfix; [|discriminate]. destruct (calc (b_opts e0) (view e0)) as [[sm tf]|e2] eqn:Ecalc; inversion Ep; subst.
+          eexists; eexists; eauto.
+        * destruct (calc (b_opts e0) (view e0)) as [[sm tf]|e2] eqn:Ecalc; inversion Ep; subst. eexists; eexists; eauto.
+    - right; right; left. destruct (b_ctx b); simpl in H.
+      + inversion H; subst. eexists; eauto.
+      + destruct g; simpl in H; inversion H; subst. eexists; eauto.
+  Qed.
+
+  (* with iteration enabled, what fly returns is the result of one of this flight's iterations whose residual passed
+     the tolerance test *)
+  Theorem fly_returns_converged : forall g b m t sm tf,
+    b_ctx b = None -> snd (fly g b m) = Flown t sm tf ->
+    exists d r, snd (fly_iteration d) = inl (t, r) /\ (o_iterate (b_opts b) = true -> small (b_opts b) r = true).
+  Proof.
+    intros g b m t sm tf Hn H. unfold C17_Model.fly in H. rewrite Hn in H.
+    destruct (ctor (b_opts b) (view b) m) as [c|r0]; [|destruct g; simpl in H; discriminate].
+    set (c' := update "total_fuel_mass" None (update "starting_mass" (m_given_mass m) c)) in H.
+    set (e := mkb (b_opts b) (b_own b) (Some c')) in H.
+    assert (Ha : armed e).
+    { unfold armed, has_ctx_attr, e, c'; simpl. rewrite !has_update. simpl. split; auto. }
+    destruct (body e) as [b' out] eqn:Eb. simpl in H. subst out.
+    unfold C17_Model.body in Eb. destruct (prepare e) as [d|e1] eqn:Ep; [|inversion Eb].
+    destruct (prepare_opts_armed e d Ha Ep) as (Hod & Had).
+    unfold C17_Model.body_after in Eb. destruct (o_optimize (b_opts d)); [inversion Eb|].
+    destruct (fly_iteration_opts_armed d Had) as (Hox & Hax).
+    destruct (fly_iteration d) as [x [[t0 r0]|e2]] eqn:Ef; [|inversion Eb]. simpl in Hox, Hax.
+    assert (Hxb : b_opts x = b_opts b) by (rewrite Hox, Hod; reflexivity).
+    destruct (o_iterate (b_opts x)) eqn:Eit.
+    - pose proof (iterate_opts_ctx (Nat.pred (o_max_iters (b_opts x))) x t0 r0 Hax) as Hz.
+      destruct (iterate _ x t0 r0) as [z [t3|e3]] eqn:Ei; inversion Eb; subst. simpl in Hz.
+      destruct (iterate_returns_converged _ _ _ _ _ _ Ei) as (r' & Hs & [Heq|(b0 & Hb0)]).
+      + inversion Heq; subst. exists d, r0. split; [rewrite Ef; reflexivity|]. intros _. rewrite <- Hxb, <- Hz. exact Hs.
+      + exists b0, r'. split; [exact Hb0|]. intros _. rewrite <- Hxb, <- Hz. exact Hs.
+    - inversion Eb; subst. exists d, r0. split; [rewrite Ef; reflexivity|].
+      intros Hit. rewrite <- Hxb in Hit. congruence.
+  Qed.
 End Proofs.
 
 (* ---- the finding F15 as a concrete witness: the constructor refuses (reason 7), fly reports the
         AttributeError of `del self.ctx` instead ---- *)
-Definition w_ctor (_ : options) (_ : mission) : dict + Z := inr 7%Z.
+Definition w_ctor (_ : options) (_ : string -> option value) (_ : mission) : dict + Z := inr 7%Z.
 Definition w_calc (_ : options) (_ : string -> option value) : (Z * Z) + Z := inl (0, 0)%Z.
 Definition w_iter (_ : options) (_ : string -> option value) : (Z * Z) + Z := inl (0, 0)%Z.
 Definition w_small (_ : options) (_ : Z) : bool := true.
@@ -472,7 +557,7 @@ Definition w_adjust (_ : string -> option value) (_ : Z) : Z * Z := (0, 0)%Z.
 Definition w_opts : options := mkopts false false 5 0.
 
 Theorem context_ctor_error_masked_refuted :
-  exists m, w_ctor w_opts m = inr 7%Z /\
+  exists m, w_ctor w_opts (view (fresh w_opts)) m = inr 7%Z /\
     snd (fly w_ctor w_calc w_iter w_small w_adjust false true (fresh w_opts) m) <> Raised (Reason 7%Z) /\
     snd (fly w_ctor w_calc w_iter w_small w_adjust false true (fresh w_opts) m) = Raised AttrCtx /\
     snd (fly w_ctor w_calc w_iter w_small w_adjust true true (fresh w_opts) m) = Raised (Reason 7%Z).
@@ -491,50 +576,51 @@ Proof. split; vm_compute; reflexivity. Qed.
 Definition view_t := string -> option value.
 (* the flight code sees the builder only through reads of the names in [reads]; "current_mass", the one name a
    flight leaves on the builder itself, is not among them; the two mass attributes are *)
-Definition reads_only (calc : options -> view_t -> (Z * Z) + Z) (iter_once : options -> view_t -> (Z * Z) + Z)
+Definition reads_only (ctor : options -> view_t -> mission -> dict + Z) (calc : options -> view_t -> (Z * Z) + Z) (iter_once : options -> view_t -> (Z * Z) + Z)
     (adjust : view_t -> Z -> Z * Z) (reads : list string) : Prop :=
+  (forall o v1 v2 m, agree reads v1 v2 -> ctor o v1 m = ctor o v2 m) /\
   (forall o v1 v2, agree reads v1 v2 -> calc o v1 = calc o v2) /\
   (forall o v1 v2, agree reads v1 v2 -> iter_once o v1 = iter_once o v2) /\
   (forall v1 v2 r, agree reads v1 v2 -> adjust v1 r = adjust v2 r) /\
   ~ In "current_mass" reads /\ In "starting_mass" reads /\ In "total_fuel_mass" reads.
 
 Theorem main_fly_history_independent : forall ctor calc iter_once small adjust reads,
-  reads_only calc iter_once adjust reads ->
+  reads_only ctor calc iter_once adjust reads ->
   forall guarded gfix o ms m,
     let b := fst (run ctor calc iter_once small adjust guarded gfix (fresh o) ms) in
     snd (fly ctor calc iter_once small adjust guarded gfix b m) = snd (fly ctor calc iter_once small adjust guarded gfix (fresh o) m) /\
     idle reads o (fst (fly ctor calc iter_once small adjust guarded gfix b m)).
 Proof.
-  intros ctor calc iter_once small adjust reads (H1 & H2 & H3 & H4 & H5 & H6) guarded gfix o ms m.
+  intros ctor calc iter_once small adjust reads (H0 & H1 & H2 & H3 & H4 & H5 & H6) guarded gfix o ms m.
   eapply fly_history_independent; eauto.
 Qed.
 
 Theorem main_history_is_fresh_flights : forall ctor calc iter_once small adjust reads,
-  reads_only calc iter_once adjust reads ->
+  reads_only ctor calc iter_once adjust reads ->
   forall guarded gfix o ms,
     snd (run ctor calc iter_once small adjust guarded gfix (fresh o) ms) =
     map (fun m => snd (fly ctor calc iter_once small adjust guarded gfix (fresh o) m)) ms.
 Proof.
-  intros ctor calc iter_once small adjust reads (H1 & H2 & H3 & H4 & H5 & H6) guarded gfix o ms.
+  intros ctor calc iter_once small adjust reads (H0 & H1 & H2 & H3 & H4 & H5 & H6) guarded gfix o ms.
   eapply run_is_map_of_fresh_flights; eauto. apply idle_fresh.
 Qed.
 
 (* ... also when the caller replaces the options between flights *)
 Theorem main_ops_history_independent : forall ctor calc iter_once small adjust reads,
-  reads_only calc iter_once adjust reads ->
+  reads_only ctor calc iter_once adjust reads ->
   forall guarded gfix o0 ops m,
     let b := fst (run_ops ctor calc iter_once small adjust guarded gfix (fresh o0) ops) in
     snd (fly ctor calc iter_once small adjust guarded gfix b m)
       = snd (fly ctor calc iter_once small adjust guarded gfix (fresh (b_opts b)) m) /\
     idle reads (b_opts b) (fst (fly ctor calc iter_once small adjust guarded gfix b m)).
 Proof.
-  intros ctor calc iter_once small adjust reads (H1 & H2 & H3 & H4 & H5 & H6) guarded gfix o0 ops m.
+  intros ctor calc iter_once small adjust reads (H0 & H1 & H2 & H3 & H4 & H5 & H6) guarded gfix o0 ops m.
   eapply ops_history_independent; eauto.
 Qed.
 
 (* a failed flight leaves the builder fully usable: whatever failed before, a flight gives what a fresh builder gives *)
 Theorem main_failed_flight_leaves_builder_usable : forall ctor calc iter_once small adjust reads,
-  reads_only calc iter_once adjust reads ->
+  reads_only ctor calc iter_once adjust reads ->
   forall guarded gfix o bad m,
     let b := fst (fly ctor calc iter_once small adjust guarded gfix (fresh o) bad) in
     b_ctx b = None /\ b_opts b = o /\
